@@ -213,6 +213,9 @@ def ite_dict(i, d, default):
     # split the dictionary
     dictLow = {c: v for c, v in d.items() if pattern(c) <= split_val}
     dictHigh = {c: v for c, v in d.items() if pattern(c) > split_val}
+    if not dictHigh:
+        # all keys have the same bit pattern (keys that are congruent modulo 2**width): nothing to split on
+        return ite_cases([(i == c, v) for c, v in d.items()], default)
 
     valLow = ite_dict(i, dictLow, default)
     valHigh = ite_dict(i, dictHigh, default)
